@@ -60,3 +60,12 @@ Theorem C12_alpha_rises_iff_entropy_low : forall (la target : R) (lp : list R), 
   (snd (sac_exploration_loss (F := R * R) (la, 1) (target, 0) (map dconst lp)) < 0 <-> - rmean lp < target).
 Proof. exact alpha_rises_iff_entropy_low. Qed.
 Print Assumptions C12_alpha_rises_iff_entropy_low.
+
+(** several epochs: the ratio is taken against the log-probabilities read before the first update; re-reading them in
+    every epoch is refuted (a favourably clipped sample would keep a non-zero gradient) *)
+Theorem C12_ppo_reread_old_logp_refuted :
+  exists c lp old t A : R, 0 < c /\ 1 + c < exp (lp - old) /\ 0 < A /\
+    snd (ppo_term (F := R * R) (c, 0) (lp, t) (old, 0) (A, 0)) = 0 /\
+    snd (ppo_term (F := R * R) (c, 0) (lp, t) (lp, 0) (A, 0)) <> 0.
+Proof. exact ppo_reread_refuted. Qed.
+Print Assumptions C12_ppo_reread_old_logp_refuted.
